@@ -881,8 +881,15 @@ theorem segsRel_facts (a : List MediaSegment) (sps : List (KeySpec × Option Key
 def NoK2 (p : MediaPlaylist) : Prop := ∀ s ∈ p.segments, ∀ m, s.map = some m → m.keys = preKeys s
 
 
-theorem parsed_wf (e : Option Nat) (ls : List Line) (p : MediaPlaylist) (h : assembleMedia (bE e) ls = .ok p)
-    (hiv : LinesNoNum ls) (hk2 : NoK2 p) : WF p e := by
+/-- `WF` without the K2 clause (which keys cover a map): what holds of EVERY parsed value -/
+structure WF0 (p : MediaPlaylist) (e : Option Nat) : Prop where
+  excess : p.allowable_excess_duration = e.getD 0
+  built : SegsBuilt p.media_sequence 0 p.segments
+  good : ∀ s ∈ p.segments, KSorted (preKeys s) ∧ ∃ sp, Abs (preKeys s) sp
+  valid : validOf p.has_independent_segments e p.target_duration (p.segments.map fun s => reparsed s (preKeys s)) = true
+
+theorem parsed_wf0 (e : Option Nat) (ls : List Line) (p : MediaPlaylist) (h : assembleMedia (bE e) ls = .ok p)
+    (hiv : LinesNoNum ls) : WF0 p e := by
   obtain ⟨st, hf, hpart, hb, hms, htd, hex, hunk, hval⟩ := assembleMedia_ok (bE e) ls p h
   have hinv := pinv_fold ls _ st (pinv_init (bE e)) hf
   have hnn := stNoNum_fold ls _ st ⟨(by intro k hk; cases hk), (by intro s hs; cases hs)⟩ hiv hf
@@ -908,7 +915,7 @@ theorem parsed_wf (e : Option Nat) (ls : List Line) (p : MediaPlaylist) (h : ass
     obtain ⟨x, hx, e⟩ := hmem s hs
     obtain ⟨k1, k2⟩ := hfacts x hx
     rw [← e] at k1 k2
-    exact ⟨k1, k2, hk2 s hs⟩
+    exact ⟨k1, k2⟩
   · -- validation
     have hsegs := setSegments_implicit st.builder st.segments hinv.2.2
     have hv0 : validOf p.has_independent_segments e p.target_duration st.segments = true := by
@@ -953,6 +960,11 @@ theorem parsed_wf (e : Option Nat) (ls : List Line) (p : MediaPlaylist) (h : ass
           · exact h.1.2.2.2.2
           · exact ih _ h.2 x hx
       exact this 0 _ sb s0 hs0
+
+theorem parsed_wf (e : Option Nat) (ls : List Line) (p : MediaPlaylist) (h : assembleMedia (bE e) ls = .ok p)
+    (hiv : LinesNoNum ls) (hk2 : NoK2 p) : WF p e := by
+  obtain ⟨a, b, c, d⟩ := parsed_wf0 e ls p h hiv
+  exact ⟨a, b, fun s hs => ⟨(c s hs).1, (c s hs).2, hk2 s hs⟩, d⟩
 
 /-! ## part 9: keys that come from text never carry a derived IV -/
 
